@@ -133,6 +133,42 @@ def C19(repo):
     return header(repo, 'C19') + generated(repo, 'C19')
 
 
+def _swap_unit(args):
+    repo, name, text, types, budget = args
+    from contracts import cxx_swap as S
+    try:
+        res = R.check_swap_unit(repo, name, text, types, pool_types(), budget, jobs=1, verify_pool=(name == 'g0'))
+    except Exception as e:
+        return [{'contract': 'c++ raw swap unit %s' % name, 'status': 'error', 'reason': repr(e)[-1500:], 'obligations': [],
+                 'props': ['C09']}]
+    tagged = set(t.name for t in types + pool_types() if S.overaligned_part(t))
+    for r in res:
+        r['layer'] = 'generated'
+        r['schema'] = text
+        for n in tagged:
+            if r['contract'].endswith('swap<%s>' % n):
+                # recorded finding (known_findings.json): reported under its own name, nothing else is masked
+                for o in r.get('obligations', []):
+                    o['name'] = 'part-overalign:' + o['name']
+    return res
+
+
+def C09(repo):
+    tier, seed = _tier(), _seed()
+    items = family(seed, tier)
+    jobs = int(os.environ.get('VERIF_JOBS', '16'))
+    chunk = max(1, (len(items) + jobs - 1) // jobs)
+    units = []
+    for k in range(0, len(items), chunk):
+        part = items[k:k + chunk]
+        units.append((repo, 'g%d' % (k // chunk), F.Pool.TEXT + ''.join(t for t, _ in part), [s for _, s in part], _budget()))
+    out = []
+    with ProcessPoolExecutor(max_workers=jobs) as ex:
+        for res in ex.map(_swap_unit, units):
+            out.extend(res)
+    return out
+
+
 def C18(repo):
     try:
         res = R.check_print_header(repo, timeout_ms=_budget(), jobs=int(os.environ.get('VERIF_JOBS', '16')))
